@@ -116,6 +116,7 @@ def cmd_check(prop: str, tier: str) -> int:
         f"  selftest[{tier}]: variants={st['variants_analysed']} mutants_detected={st['mutants_detected']}/"
         f"{st['mutants_applicable']} benign_silent={st['benign_silent']}/{st['benign_applicable']} "
         f"seeded_detected={st['seeded_changes_detected']}/{st['seeded_changes_applicable']} "
+        f"refactorings_silent={st['refactorings_silent']}/{st['refactorings_applicable']} "
         f"skipped={st['skipped']} pristine_tree={st['pristine_tree']}"
     )
     for msg in st["problems"]:
